@@ -12,11 +12,23 @@ def _rand_int(rng):
     return rng.choice([0, 0, 1, 1, 2, 3, -1, -1, -2, -3, 5, -5, 10])
 
 
-def _rand_opt_int(rng, p_none=0.4):
+def _rand_opt_int(rng, p_none=0.55):
     return None if rng.random() < p_none else _rand_int(rng)
 
 
-def _rand_slice(rng):
+def _rand_slice(rng, nkids=0):
+    if rng.random() < 0.7:
+        # wide: bounds chosen around the actual number of children
+        lo = rng.choice([None, None, None, 0, 0, 1, -nkids, -nkids - 1, -1])
+        hi = rng.choice([None, None, None, nkids, nkids + 1, -1, max(nkids - 1, 0), 0])
+        st = {"t": "slice", "a": lo, "b": hi, "sep": rng.random() < 0.25}
+        r = rng.random()
+        if r < 0.4:
+            c = rng.choice([None, 1, 1, 2, -1, -1, -2])
+            if c is not None and c < 0:
+                st["a"], st["b"] = rng.choice([None, nkids - 1, -1, nkids]), rng.choice([None, None, 0, -nkids - 1])
+            st["c"] = {"v": c}
+        return st
     st = {"t": "slice", "a": _rand_opt_int(rng), "b": _rand_opt_int(rng), "sep": rng.random() < 0.25}
     r = rng.random()
     if r < 0.45:
@@ -25,35 +37,39 @@ def _rand_slice(rng):
     return st
 
 
-def _rand_steps(rng, tree, start, nsteps, p_miss, allow_up_after=True):
-    """random walk over the tree description: mostly steps that exist"""
+def _rand_steps(rng, tree, start, nsteps, p_miss, canon):
+    """random walk over the tree description: mostly steps that exist.  canon: all `..` first."""
     pm = cm.parent_map(tree)
     cur = start  # representative node (None when the walk fell off the tree)
     steps = []
-    for _ in range(nsteps):
+    nups = 0
+    if canon:
+        nups = min(nsteps, rng.choice([0, 0, 0, 1, 1, 2, 3]))
+    for i in range(nsteps):
         r = rng.random()
         kids = cur["kids"] if cur else []
-        if r < 0.12:
+        if (canon and i < nups) or (not canon and r < 0.15):
             steps.append({"t": "up"})
             if cur is not None and pm[cur["id"]] is not None:
                 cur = pm[cur["id"]]
-        elif r < 0.20:
+        elif r < 0.22:
             steps.append({"t": "here"})
-        elif r < 0.40:
-            steps.append(_rand_slice(rng))
+        elif r < 0.45 and (not cur or cur["k"] != "s"):
+            steps.append(_rand_slice(rng, len(kids)))
             cur = kids[0] if kids else None
-        elif r < 0.47:
+        elif r < 0.51 and (not cur or cur["k"] != "s"):
             n = rng.choice([0, 1, 1, 2, 3, 5])
             steps.append({"t": "neg", "n": n, "sep": rng.random() < 0.25})
             cur = kids[-n] if 0 < n <= len(kids) else (kids[0] if kids and n == 0 else None)
         else:
             miss = rng.random() < p_miss
+            nxt = None
             if cur is not None and cur["k"] in ("d", "c") and kids and not miss:
                 k = rng.choice(kids)
                 s = k["name"]
                 nxt = k
             elif cur is not None and cur["k"] in ("l", "a", "m", "j") and not miss:
-                i = rng.randrange(0, len(kids) + 1)
+                i = rng.randrange(0, len(kids) + 1) if rng.random() < 0.2 or not kids else rng.randrange(0, len(kids))
                 if kids and rng.random() < 0.15:
                     j = rng.randrange(1, len(kids) + 1)
                     s = rng.choice(["-%d" % j, " %d" % (j - 1), "0%d" % (j - 1), "+%d" % (j - 1)])
@@ -63,18 +79,13 @@ def _rand_steps(rng, tree, start, nsteps, p_miss, allow_up_after=True):
                     nxt = kids[i] if i < len(kids) else None
             else:
                 s = cm.pick_name(rng, 0.6)
-                nxt = None
-                if cur is not None and cur["k"] in ("d", "c"):
-                    for k in kids:
-                        if k["name"] == s:
-                            nxt = k
             if not cm.good_name(s):
                 s = "a"
                 nxt = None
-                if cur is not None and cur["k"] in ("d", "c"):
-                    for k in kids:
-                        if k["name"] == s:
-                            nxt = k
+            if nxt is None and cur is not None and cur["k"] in ("d", "c"):
+                for k in kids:
+                    if k["name"] == s:
+                        nxt = k
             steps.append({"t": "name", "s": s, "br": rng.random() < 0.5, "sep": rng.random() < 0.25,
                           "escall": rng.random() < 0.2})
             cur = nxt
@@ -265,7 +276,7 @@ class C14(Property):
         while made < n:
             hostile = rng.choice([0.0, 0.3, 0.6])
             pools = [cm.DIGITS, cm.PUNCT, cm.PUNCT, cm.BACKSLASH_OK, cm.BACKSLASH_BAD, cm.BACKSLASH_END, cm.UNICODE]
-            depth = rng.choice([1, 2, 2, 3, 3, 4])
+            depth = rng.choice([2, 2, 3, 3, 4])
             schema = cm.rand_schema(rng, depth, rng.choice(["root", None, "r/"]), hostile, pools, top=True)
             tree = cm.number(cm.instantiate(rng, schema))
             nodes = list(cm.preorder(tree))
@@ -273,7 +284,14 @@ class C14(Property):
             for _ in range(per_tree):
                 if made >= n:
                     break
-                start = rng.choice(nodes) if rng.random() < 0.7 else tree
+                containers = [x for x in nodes if x["kids"]]
+                r0 = rng.random()
+                if r0 < 0.5 and containers:
+                    start = rng.choice(containers)
+                elif r0 < 0.8:
+                    start = rng.choice(nodes)
+                else:
+                    start = tree
                 strict = rng.random() < 0.5
                 single = rng.random() < 0.3
                 r = rng.random()
@@ -284,9 +302,7 @@ class C14(Property):
                     top = rng.random() < 0.3
                     walk_from = tree if top else start
                     steps = _rand_steps(rng, tree, walk_from, rng.choice([0, 1, 1, 2, 2, 3, 3, 4, 5, 6]),
-                                        p_miss=rng.choice([0.0, 0.1, 0.3]))
-                    if rng.random() < 0.75:
-                        steps = _make_canon(steps)
+                                        p_miss=rng.choice([0.0, 0.0, 0.1, 0.3]), canon=rng.random() < 0.75)
                     ast = {"top": top, "trail": rng.random() < 0.2, "steps": steps}
                     yield self._case(tree, start["id"], cm.print_path(ast), strict, single, ast)
                 made += 1
@@ -360,7 +376,8 @@ class C14(Property):
         t = []
         r = obs["result"]
         ast = case.get("ast")
-        t.append("stream=%s" % ("grammar" if ast is not None else "malformed"))
+        stream = "grammar" if ast is not None else "malformed"
+        t.append("stream=%s" % stream)
         t.append("strict=%s" % case["strict"])
         t.append("single=%s" % case["single"])
         if "error" in r:
@@ -369,6 +386,7 @@ class C14(Property):
             t.append("result=one:%s" % ("none" if r["one"] is None else "element"))
         else:
             t.append("result=list:%d" % min(len(r["list"]), 6))
+            t.append("%s:list:%d" % (stream, min(len(r["list"]), 6)))
         if isinstance(obs["ops"], list):
             t.append("ops=%d" % min(len(obs["ops"]), 8))
             for o in obs["ops"]:
